@@ -65,7 +65,7 @@ CHECKS = {
                        "(#[automatically_derived] or manual). Types without a float must be all-derived; a float-bearing type must build "
                        "eq/partial_cmp/cmp/hash on one canonical total key, which is checked on the MIR of the four methods (callees, absence of "
                        "IEEE comparison BinaryOps, shared key function, NaN/-0.0 canonicalisation). Plus: no ad-hoc comparators on value "
-                       "types, and the WHERE comparison converts INT to REAL before ordering. The Compare arm of evaluate constructs no operand value except the INT -> REAL widening (a cast of the Int payload): WHERE compares with the same equality / order that the key containers use.",
+                       "types, and the WHERE comparison converts INT to REAL before ordering. The Compare arm of evaluate constructs no operand value except the INT -> REAL widening (a cast of the Int payload): WHERE compares with the same equality / order that the key containers use. partial_cmp of the REAL wrapper builds no None and every Some(ordering) comes from cmp. Outside the Hash impls nothing feeds a Value / Float / GroupKey / Row into a hasher of its own (containers hold values, not digests).",
         "trusted": ["rustc nightly MIR + is_automatically_derived", "std/chrono leaf types are lawful", "derive output is lawful over lawful fields"],
         "technique": "static impl-provenance and sibling-agreement analysis of the comparison/hash trait impls on type-checked MIR",
         "level_text": "Decides the structural necessary-and-sufficient condition for the order laws given lawful leaves: all five impls of every "
@@ -74,7 +74,7 @@ CHECKS = {
     },
     "C06": {
         "modules": ["rules_c06"],
-        "explanation": 'Must-pass-through (edge dominance) on the MIR CFG of the three per-line entry points of ExecutionEngine: every call into the select/aggregate/join engines and every write through self is dominated by the true edge of the branch on Row::any_result() applied (provenance-checked) to the row that TableDefinition::extract returned for this line; who-may-call rule for extract; structural check of the admission predicate (any_result body; NOT NULL cut in extract clears the row on every path from the cut edge; NULL test applied after DEFAULT substitution); join file routed through the same entry; LIMIT counter written only in update_limit.',
+        "explanation": 'Must-pass-through (edge dominance) on the MIR CFG of the three per-line entry points of ExecutionEngine: every call into the select/aggregate/join engines and every write through self is dominated by the true edge of the branch on Row::any_result() applied (provenance-checked) to the row that TableDefinition::extract returned for this line; who-may-call rule for extract; structural check of the admission predicate (any_result body; NOT NULL cut in extract clears the row on every path from the cut edge; NULL test applied after DEFAULT substitution); join file routed through the same entry; LIMIT counter written only in update_limit. A Value::Bool is built in extract_using_regex only where the result of the pattern was found, so a line no pattern matches has no value in any column.',
         "trusted": ["rustc nightly MIR + trait resolution", "dependencies behave as documented"],
         "technique": 'static must-pass-through / edge-dominance analysis on MIR CFGs (helper functions inlined), effect (inert-field) analysis, who-may-call over the resolved call graph, path enumeration of the admission predicate and the NOT NULL cut',
         "level_text": 'Decides the structural clause: no path lets a non-admitted line reach engine state, and the admission predicate has the stated shape; the behavioural invariance under noise insertion follows given purity of extraction (C01). Exhaustive over all paths of the anchored functions.',
@@ -90,7 +90,7 @@ CHECKS = {
     },
     "C19": {
         "modules": ["rules_c19"],
-        "explanation": 'CFG rules on the MIR of FileExecutor::execute, FollowFileExecutor::execute and JoinedTableData::execute: the AtomicBool::load of the running flag (receiver provenance-checked) lies after the line is read, its running==true edge dominates ExecutionEngine::execute and OutputPrinter::print of that line, from its false edge no input-consuming call is reachable, the interrupt path constructs no Err and still passes the final aggregate result/print; constant extraction of the sampling interval in the join loader (<= 10); who-may-write enumeration of all atomic stores in lib and bin.',
+        "explanation": 'CFG rules on the MIR of FileExecutor::execute, FollowFileExecutor::execute and JoinedTableData::execute: the AtomicBool::load of the running flag (receiver provenance-checked) lies after the line is read, its running==true edge dominates ExecutionEngine::execute and OutputPrinter::print of that line, from its false edge no input-consuming call is reachable, the interrupt path constructs no Err and still passes the final aggregate result/print; constant extraction of the sampling interval in the join loader (<= 10); who-may-write enumeration of all atomic stores in lib and bin. No line is executed or printed after execute_joined_table (which returns quietly, half loaded, on an interrupt) without the flag sampled in between.',
         "trusted": ["rustc nightly MIR + trait resolution", "dependencies behave as documented"],
         "technique": 'static path-fact (path-sensitive guard) analysis, reachability and who-may-write rules on MIR with local helpers inlined',
         "level_text": 'Decides where the flag is sampled relative to reading/executing/printing on every path, and who writes it. Signal timing and the prefix relation are not decided.',
@@ -98,7 +98,7 @@ CHECKS = {
     },
     "C07": {
         "modules": ["rules_c07"],
-        "explanation": "CFG and who-may-read rules on the MIR of both executors and ExecutionEngine::{execute, update_limit}: from the reached_limit edge no input-consuming call is reachable (all loops are left); reached_limit is tested on every path from executing a line back to the loop header; the counter is fed from Vec::len of the emitted rows (no filtered count); execute_select is reached only through `limit is None` or `num_output_rows < limit` and the rows of one line are truncated before being counted; the batch aggregate table is cut in ExecutionEngine::execute, and no other function of the execution engines reads the statement's limit. The optional LIMIT is never collapsed into a plain number by a default other than usize::MAX (no sentinel that a legitimate LIMIT n could equal).",
+        "explanation": "CFG and who-may-read rules on the MIR of both executors and ExecutionEngine::{execute, update_limit}: from the reached_limit edge no input-consuming call is reachable (all loops are left); reached_limit is tested on every path from executing a line back to the loop header; the counter is fed from Vec::len of the emitted rows (no filtered count); execute_select is reached only through `limit is None` or `num_output_rows < limit` and the rows of one line are truncated before being counted; the batch aggregate table is cut in ExecutionEngine::execute, and no other function of the execution engines reads the statement's limit. The optional LIMIT is never collapsed into a plain number by a default other than usize::MAX (no sentinel that a legitimate LIMIT n could equal). An update-only aggregate line (batch mode) reaches neither a writer of the LIMIT counter nor with_reached_limit.",
         "trusted": ["rustc nightly MIR + trait resolution", "dependencies behave as documented"],
         "technique": 'static reachability, edge-dominance, callee-shape and who-may-read rules on MIR',
         "level_text": "Decides the mechanism clauses (loop exit, pre-test, truncation, counting, single place of application). The two-run relation 'first n of the unlimited result' is not decided.",
@@ -130,7 +130,7 @@ CHECKS = {
     },
     "C17": {
         "modules": ["rules_c17"],
-        "explanation": "Path counting and arm-table rules on MIR: over all acyclic paths of the row loop of OutputPrinter::print the number of Printer::println calls is exactly 1 (0+2 on the CSV first-line edge), after the loop at most one separator guarded by multiple_rows && !single_result; first_line typestate (constructor true, cleared on every row path, single reader); in the three format closures the value index is the unmodified enumerate index; Value::json_value arm table (variant -> JSON kind, no coercing cast, no wildcard, recursion on array elements); records serialised by serde_json::to_string on a Map and the preserve_order feature read from Cargo.toml; FileExecutor prints each line's result at most once.",
+        "explanation": "Path counting and arm-table rules on MIR: over all acyclic paths of the row loop of OutputPrinter::print the number of Printer::println calls is exactly 1 (0+2 on the CSV first-line edge), after the loop at most one separator guarded by multiple_rows && !single_result; first_line typestate (constructor true, cleared on every row path, single reader); in the three format closures the value index is the unmodified enumerate index; Value::json_value arm table (variant -> JSON kind, no coercing cast, no wildcard, recursion on array elements); records serialised by serde_json::to_string on a Map and the preserve_order feature read from Cargo.toml; FileExecutor prints each line's result at most once. Names: the iterators the format closures are mapped over start at ResultRow.columns and the JSON key is that element cloned.",
         "trusted": ["rustc nightly MIR + trait resolution", "dependencies behave as documented"],
         "technique": 'static path counting over acyclic MIR paths, path-fact guard analysis, variant-to-JSON-kind table from path facts, provenance of indexes, build-configuration check (MIR with local helpers inlined)',
         "level_text": 'Decides record multiplicity, header typestate, name/value pairing and the JSON kind mapping on every path. Number/escape fidelity inside serde_json and Display formats are not decided.',
@@ -138,7 +138,7 @@ CHECKS = {
     },
     "C13": {
         "modules": ["rules_c13"],
-        "explanation": "Constant and shape extraction from the MIR of the table-driven parser: the (operator, precedence) pairs of BinaryOperators::new (operator aggregate and BinaryOperator::new argument of each insert call) and the constants returned per token variant by Parser::get_token_precedence are checked against the property's ordering chain; the climbing loop's two comparisons are '<' and the right operand is parsed at token_precedence + 1; the constant levels at which parse_unary_operator parses the operands of NOT and unary minus lie in the required intervals of the extracted table; every construction of Operator::Dual in the tokenizer is dominated by a test that constrains the second character; the IN arms have no ExpectedTuple rejection.",
+        "explanation": "Constant and shape extraction from the MIR of the table-driven parser: the (operator, precedence) pairs of BinaryOperators::new (operator aggregate and BinaryOperator::new argument of each insert call) and the constants returned per token variant by Parser::get_token_precedence are checked against the property's ordering chain; the climbing loop's two comparisons are '<' and the right operand is parsed at token_precedence + 1; the constant levels at which parse_unary_operator parses the operands of NOT and unary minus lie in the required intervals of the extracted table; every construction of Operator::Dual in the tokenizer is dominated by a test that constrains the second character; the IN arms have no ExpectedTuple rejection. Every iteration of the climbing loop reads its right side with the operand parser; an iteration that bypasses it calls no parser routine that can advance behind a test for `[`.",
         "trusted": ["rustc nightly MIR + trait resolution", "dependencies behave as documented"],
         "technique": 'static constant extraction through path facts, semantic normalisation of the two precedence comparisons, edge-cut reachability and arm-table rules on MIR of the tokenizer / parser',
         "level_text": 'Decides that the precedence tables, the climbing loop and the prefix levels realise the stated precedence and associativity, and that operator fusion is constrained. That table-driven climbing equals the reference grammar given a correct table is the standard result, not re-proved.',
@@ -146,7 +146,7 @@ CHECKS = {
     },
     "C20": {
         "modules": ["rules_c20"],
-        "explanation": 'Sibling-agreement and shape rules on the MIR of the tokenizer, parser and converter: every name-lookup site (HashMap::get / HashSet::contains on the static keyword/function/aggregate tables, ValueType::from_str, string equality between a literal and a non-literal) has an operand whose backward provenance passes through to_lowercase; the clause dispatch of parse_select (WHERE/INNER/OUTER/GROUP/HAVING/LIMIT arms read from the Keyword discriminant switch) sits in one loop and every arm returns to it; the statement types carry no TokenLocation; characters inside string literals are pushed unmodified and no case folding precedes the literal branch. Token-list rule: tokenize only appends tokens, rewrites the last token only into IS NOT / NOT IN / :: / => / a two-character operator, and removes a token only behind `last token is the operator --` (comment start).',
+        "explanation": 'Sibling-agreement and shape rules on the MIR of the tokenizer, parser and converter: every name-lookup site (HashMap::get / HashSet::contains on the static keyword/function/aggregate tables, ValueType::from_str, string equality between a literal and a non-literal) has an operand whose backward provenance passes through to_lowercase; the clause dispatch of parse_select (WHERE/INNER/OUTER/GROUP/HAVING/LIMIT arms read from the Keyword discriminant switch) sits in one loop and every arm returns to it; the statement types carry no TokenLocation; characters inside string literals are pushed unmodified and no case folding precedes the literal branch. Token-list rule: tokenize only appends tokens, rewrites the last token only into IS NOT / NOT IN / :: / => / a two-character operator, and removes a token only behind `last token is the operator --` (comment start). No cut of the input text in tokenize is addressed by a counter that advances by one per character (byte offsets and character counts differ for non-ASCII text in comments / literals).',
         "trusted": ["rustc nightly MIR + trait resolution", "dependencies behave as documented"],
         "technique": 'static provenance (def-use) analysis of lookup operands, arm-table / loop-membership rule, type-containment rule on MIR',
         "level_text": 'Decides the structural necessary conditions: no case-sensitive name lookup, order-free clause dispatch, no layout data in statements, verbatim literals. The relation between pairs of texts is not compared.',
@@ -162,7 +162,7 @@ CHECKS = {
     },
     "C02": {
         "modules": ["rules_c02"],
-        "explanation": "Arm-table and provenance rules on MIR: ValueType::convert_from_json maps every declared type to the serde_json accessor of the same kind (callee set per arm, no numeric cast, no wildcard, element-wise recursion for arrays); in the JSON arm of ColumnParsing::extract DEFAULT is applied only on the path-absent edge of get_value and the CONVERT branch goes as_str -> ValueType::parse while the other goes convert_from_json; JsonAccess::get_value follows Field steps with Value::get(name) and Array steps with as_array + get(index) with the step's own unmodified name/index, recursing on the inner step, and uses no other serde_json accessor; the per-line JSON parse happens once, outside any loop, under any_json_columns, and is consumed by unwrap_or(Null). Every non-NULL value convert_from_json produces lies under exactly one declared type and wraps a JSON value whose kind was established by the matching accessor or a match on the serde_json variant; the per-line parsing input is only shared-borrowed in the extraction subgraph (no &mut ParsingInput / &mut serde_json::Value parameter, no &mut borrow in the column loop), so one column cannot change what the next one reads.",
+        "explanation": "Arm-table and provenance rules on MIR: ValueType::convert_from_json maps every declared type to the serde_json accessor of the same kind (callee set per arm, no numeric cast, no wildcard, element-wise recursion for arrays); in the JSON arm of ColumnParsing::extract DEFAULT is applied only on the path-absent edge of get_value and the CONVERT branch goes as_str -> ValueType::parse while the other goes convert_from_json; JsonAccess::get_value follows Field steps with Value::get(name) and Array steps with as_array + get(index) with the step's own unmodified name/index, recursing on the inner step, and uses no other serde_json accessor; the per-line JSON parse happens once, outside any loop, under any_json_columns, and is consumed by unwrap_or(Null). Every non-NULL value convert_from_json produces lies under exactly one declared type and wraps a JSON value whose kind was established by the matching accessor or a match on the serde_json variant; the per-line parsing input is only shared-borrowed in the extraction subgraph (no &mut ParsingInput / &mut serde_json::Value parameter, no &mut borrow in the column loop), so one column cannot change what the next one reads. Inside the column loop the row being built is write-only (push / len / reserve): no column's value is read back from it.",
         "trusted": ["rustc nightly MIR + trait resolution", "dependencies behave as documented"],
         "technique": 'static arm-table extraction, def-use provenance and who-may-call rules on MIR',
         "level_text": "Decides the structural clauses (which accessor per type, no coercion, how the path is walked, when DEFAULT applies, totality of the parse). serde_json's own number model and parser are trusted.",
@@ -170,7 +170,7 @@ CHECKS = {
     },
     "C03": {
         "modules": ["rules_c03"],
-        "explanation": 'Rules on the MIR of ExpressionExecutionEngine::evaluate and SelectExecutionEngine::execute: site inventory rooted at evaluate (no unchecked arithmetic, narrowing cast or panicking call on evaluated data; guards re-proved); exhaustiveness of the top-level match (no wildcard); CompareOperator -> comparison primitive arm table with operand order checked by provenance (left, right), accepting the spelling through one Ordering; NULL-test dominance of the comparison dispatch and of the IN element comparison; ArithmeticOperator -> checked_add/sub/mul/div (INT closure, no raw integer operator) and + - * / (REAL closure); AND / OR short-circuit shape; `*` expanded from ColumnProvider::keys, exactly one push per projection on every path, one Row per call. A cast parses the operand`s own text: the string handed to ValueType::parse has, by backward provenance, no string-transforming call on the way. Literals: an ExpressionTree::Value built by the converter wraps the parse tree`s own value with no function in between.',
+        "explanation": 'Rules on the MIR of ExpressionExecutionEngine::evaluate and SelectExecutionEngine::execute: site inventory rooted at evaluate (no unchecked arithmetic, narrowing cast or panicking call on evaluated data; guards re-proved); exhaustiveness of the top-level match (no wildcard); CompareOperator -> comparison primitive arm table with operand order checked by provenance (left, right), accepting the spelling through one Ordering; NULL-test dominance of the comparison dispatch and of the IN element comparison; ArithmeticOperator -> checked_add/sub/mul/div (INT closure, no raw integer operator) and + - * / (REAL closure); AND / OR short-circuit shape; `*` expanded from ColumnProvider::keys, exactly one push per projection on every path, one Row per call. A cast parses the operand`s own text: the string handed to ValueType::parse has, by backward provenance, no string-transforming call on the way. Literals: an ExpressionTree::Value built by the converter wraps the parse tree`s own value with no function in between. Consumers of ColumnProvider::get in the execution modules never turn None (unknown column) into a value.',
         "trusted": ["rustc nightly MIR + trait resolution", "dependencies behave as documented"],
         "technique": 'static site inventory, arm-table extraction through closures, operand provenance and guard-dominance rules on MIR',
         "level_text": 'Decides the operator <-> primitive tables, NULL guards, error discipline of arithmetic and the projection shape on every path. Whether each function computes its documented value is not decided.',
@@ -178,7 +178,7 @@ CHECKS = {
     },
     "C05": {
         "modules": ["rules_c05"],
-        "explanation": 'Rules on the MIR of join.rs and the converter: error discipline (results of File::open, get_table, index_for and the per-line execute reach the caller through Try::branch/FromResidual and are not swallowed by ok()/unwrap_or); the join index insert and lookup are dominated by a NOT NULL test of the key; in execute_join every partner row yields exactly one execute call and one merge on every path back to the loop header (path counting), the loop is left early only by error returns, partners are traversed as a plain slice of a Vec<Row> bucket; the OUTER row is vec![NULL; number of joined columns] on the no-partner arm under is_outer && allow_outer; transform_join maps both ON orientations consistently (field provenance of the two JoinClause constructions). The joined table is loaded in execute_joined_table on every path with a join clause, by no other caller, and the per-line entry cannot reach the load (call graph), so a missing joined file / column is an error whatever the input contains. Order: the join module never sorts / reverses / dedups a container of rows.',
+        "explanation": 'Rules on the MIR of join.rs and the converter: error discipline (results of File::open, get_table, index_for and the per-line execute reach the caller through Try::branch/FromResidual and are not swallowed by ok()/unwrap_or); the join index insert and lookup are dominated by a NOT NULL test of the key; in execute_join every partner row yields exactly one execute call and one merge on every path back to the loop header (path counting), the loop is left early only by error returns, partners are traversed as a plain slice of a Vec<Row> bucket; the OUTER row is vec![NULL; number of joined columns] on the no-partner arm under is_outer && allow_outer; transform_join maps both ON orientations consistently (field provenance of the two JoinClause constructions). The joined table is loaded in execute_joined_table on every path with a join clause, by no other caller, and the per-line entry cannot reach the load (call graph), so a missing joined file / column is an error whatever the input contains. Order: the join module never sorts / reverses / dedups a container of rows. Line text: between reading a line of the joined file and ExecutionEngine::execute the text is only converted; a cut needs a dominating test for the terminator. FileExecutor::execute loads the joined table before its input loops on every path.',
         "trusted": ["rustc nightly MIR + trait resolution", "dependencies behave as documented"],
         "technique": 'static error-discipline (swallowed-result) analysis, path-fact guard analysis, path counting, key-provenance (lossy conversion) and field-type rules on MIR with local helpers inlined',
         "level_text": 'Decides the structural clauses of the join mechanism (errors reported, NULL keys excluded, every pair executed and merged once in file order, outer row shape, side mapping). The resulting set of pairs as values is not computed.',
@@ -186,7 +186,7 @@ CHECKS = {
     },
     "C04": {
         "modules": ["rules_c04"],
-        "explanation": "Rules on the MIR of aggregate_execution.rs: path counting shows that every per-column loop over the group table pushes exactly one value per group on every path (rectangular result table); the group table's field types are BTreeMap<GroupKey,..> and NULL is the first variant of Value's derived Ord; every group access in update_aggregate is addressed by (group_key.clone(), aggregate_index) unmodified (provenance); the HAVING aggregate index aggregates.len()+k is computed identically by its writer and its reader; MIN/MAX compare through Value's order for every type (no numeric-only fold); GroupAggregator::is_null only tests the running values for NULL; COUNT adds the constant 1. GroupAggregator::update_value constructs Some(value) only behind a test of the accumulated state (or hands on the Option of an accessor), so an aggregator without input publishes nothing. MIN / MAX store the row's value only on paths where it was established non-NULL (path facts).",
+        "explanation": "Rules on the MIR of aggregate_execution.rs: path counting shows that every per-column loop over the group table pushes exactly one value per group on every path (rectangular result table); the group table's field types are BTreeMap<GroupKey,..> and NULL is the first variant of Value's derived Ord; every group access in update_aggregate is addressed by (group_key.clone(), aggregate_index) unmodified (provenance); the HAVING aggregate index aggregates.len()+k is computed identically by its writer and its reader; MIN/MAX compare through Value's order for every type (no numeric-only fold); GroupAggregator::is_null only tests the running values for NULL; COUNT adds the constant 1. GroupAggregator::update_value constructs Some(value) only behind a test of the accumulated state (or hands on the Option of an accessor), so an aggregator without input publishes nothing. MIN / MAX store the row's value only on paths where it was established non-NULL (path facts). The HAVING row: accept_group fills the GroupKey scope only from parts of the group's key and the GroupValue scope only from the group's aggregate values.",
         "trusted": ["rustc nightly MIR + trait resolution", "dependencies behave as documented"],
         "technique": 'static path counting, type/impl facts, argument provenance, sibling agreement and arm-table rules on MIR',
         "level_text": 'Decides the structural clauses (rectangularity, ordering container, group isolation, index agreement, type coverage of MIN/MAX). Numerical values of aggregate cells are not computed. One engine limit pinned by the existing tests (groups without any aggregate entry are not shown) is a recorded known finding.',
@@ -194,7 +194,7 @@ CHECKS = {
     },
     "C15": {
         "modules": ["rules_c15"],
-        "explanation": "Only the structural necessary conditions of order-insensitivity are decided, on the MIR of aggregate_execution.rs: the MIN/MAX fold compares through Value's order for every value type (a fold that silently ignores a type keeps the first value seen, i.e. depends on arrival order); the running sum is sum + value for INT (checked), REAL and INTERVAL (checked); a lazily created aggregator depends on the first value only through default_value() (its type); PERCENTILE sorts before indexing and COUNT(DISTINCT) inserts into a HashSet<Value>.",
+        "explanation": "Only the structural necessary conditions of order-insensitivity are decided, on the MIR of aggregate_execution.rs: the MIN/MAX fold compares through Value's order for every value type (a fold that silently ignores a type keeps the first value seen, i.e. depends on arrival order); the running sum is sum + value for INT (checked), REAL and INTERVAL (checked); a lazily created aggregator depends on the first value only through default_value() (its type); PERCENTILE sorts before indexing and COUNT(DISTINCT) inserts into a HashSet<Value>. MIN / MAX lean on one total order: the REAL wrapper's partial_cmp builds no None and answers only what cmp said (same analysis as C16.float, re-decided under C15.order).",
         "trusted": ["rustc nightly MIR + trait resolution", "dependencies behave as documented"],
         "technique": 'static arm-table / callee-shape and argument-provenance rules on MIR (necessary conditions only)',
         "level_text": 'Decides necessary structural conditions: no fold keeps or seeds from the first value, and order-erasing containers are used. The algebraic law over runtime values (every permutation / partition gives the same table) is not decided by static analysis.',
